@@ -29,17 +29,47 @@ fn align_of(p: Place) -> usize {
 fn case_strategy(small: bool, tiny: bool) -> impl Strategy<Value = Case> {
     let maxb = if tiny { 90 } else if small { 200 } else { 1024 };
     let sub = prop_oneof![4 => subgen::sub_case(), 1 => subgen::phase_case(), 1 => subgen::short_fallback_case()];
+    // long haystacks in which the needle recurs with a fixed period (every vector of a long stretch has a
+    // match in the same lane, or in every lane): counters, accumulated masks and block loops that only
+    // differ between back ends after thousands of bytes
+    let dense_max = if small { maxb } else { 20000 };
+    let dense_min = if small { 16 } else { 2048 };
+    let dense = (
+        any::<u8>(),
+        any::<u8>(),
+        prop::sample::select(vec![1usize, 1, 2, 3, 4, 8, 16, 16, 32, 64]),
+        any::<u8>(),
+        dense_min..=dense_max,
+        prop::collection::vec((any::<u16>(), any::<bool>()), 0..=3),
+        0usize..64,
+        1usize..=3,
+    )
+        .prop_map(|(b, fill, p, r, len, flips, align, arity)| {
+            let fill = if fill == b { fill.wrapping_add(1) } else { fill };
+            let mut hay: Vec<u8> = (0..len).map(|i| if i % p == (r as usize) % p { b } else { fill }).collect();
+            for (f, to_needle) in flips {
+                let at = ((f as u64 * len as u64) >> 16) as usize;
+                hay[at] = if to_needle { b } else { fill };
+            }
+            let needles = match arity {
+                1 => vec![b],
+                2 => vec![b, b.wrapping_add(7)],
+                _ => vec![b.wrapping_add(9), b.wrapping_add(7), b],
+            };
+            Case::Byte { align, needles, hay }
+        });
     prop_oneof![
-        4 => bytecheck::byte_case(maxb).prop_map(|c| Case::Byte { align: align_of(c.place), needles: c.needles, hay: c.hay }),
-        2 => (itercheck::iter_case(maxb), prop::collection::vec(0u8..3, 0..=14)).prop_map(|(c, pattern)| Case::Iter { align: align_of(c.place), needles: c.needles, hay: c.hay, pattern }),
-        5 => (sub, 0usize..64).prop_map(move |(c, align)| {
+        3 => dense,
+        240 => bytecheck::byte_case(maxb).prop_map(|c| Case::Byte { align: align_of(c.place), needles: c.needles, hay: c.hay }),
+        120 => (itercheck::iter_case(maxb), prop::collection::vec(0u8..3, 0..=14)).prop_map(|(c, pattern)| Case::Iter { align: align_of(c.place), needles: c.needles, hay: c.hay, pattern }),
+        300 => (sub, 0usize..64).prop_map(move |(c, align)| {
             let mut hay = c.hay;
             if small {
                 hay.truncate(if tiny { 160 } else { 700 });
             }
             Case::Sub { align, needle: c.needle, hay }
         }),
-        2 => (ppcheck::pp_case(), 0usize..64, any::<u16>()).prop_map(|(c, align, cut)| {
+        120 => (ppcheck::pp_case(), 0usize..64, any::<u16>()).prop_map(|(c, align, cut)| {
             // one in four is cut down to the neighbourhood of a minimum length
             let mut hay = c.hay;
             if cut % 4 == 0 {
@@ -49,7 +79,7 @@ fn case_strategy(small: bool, tiny: bool) -> impl Strategy<Value = Case> {
             }
             Case::Pair { align, needle: c.needle, i1: c.i1 as u8, i2: c.i2 as u8, hay }
         }),
-        1 => crate::histcheck::history().prop_map(move |mut h| {
+        60 => crate::histcheck::history().prop_map(move |mut h| {
             if small {
                 for x in h.hays.iter_mut() {
                     x.truncate(if tiny { 120 } else { 400 });
@@ -59,7 +89,7 @@ fn case_strategy(small: bool, tiny: bool) -> impl Strategy<Value = Case> {
             }
             Case::Hist(h)
         }),
-        1 => (prop::collection::vec(any::<u8>(), 0..=120), any::<u16>(), any::<u16>(), 0u8..5, 0usize..64, 0usize..64).prop_map(|(base, f1, f2, kind, ax, ay)| {
+        60 => (prop::collection::vec(any::<u8>(), 0..=120), any::<u16>(), any::<u16>(), 0u8..5, 0usize..64, 0usize..64).prop_map(|(base, f1, f2, kind, ax, ay)| {
             let len = base.len();
             let at = |f: u16, n: usize| ((f as u64 * n as u64) >> 16) as usize;
             let y = match kind {
@@ -484,6 +514,11 @@ pub fn judge_cases(ctx: &Ctx) -> Frag {
                     frag.sample(s);
                 }
             }
+            if let Case::Byte { hay, .. } = c {
+                if hay.len() >= 2048 && executed >= 2 {
+                    frag.class("byte search in a long periodic haystack (>= 2048 bytes), >= 2 configurations");
+                }
+            }
             frag.class(match c {
                 Case::Byte { .. } => "byte search cases",
                 Case::Iter { .. } => "byte iterator cases",
@@ -496,6 +531,10 @@ pub fn judge_cases(ctx: &Ctx) -> Frag {
     }
     for (k, v) in per_cfg {
         frag.extra.insert(format!("cases_executed[{}]", k), json!(v));
+    }
+    if cases.len() >= 50_000 && ctx.prop == "C09" {
+        // the natively executed file (the Miri files are small by construction)
+        frag.require(&["byte search in a long periodic haystack (>= 2048 bytes), >= 2 configurations"]);
     }
     frag
 }
